@@ -322,6 +322,11 @@ func (c *channel) receiver() {
 
 		select {
 		case <-c.parentCtx.Done():
+			if err == nil {
+				// The node was closed while a reply was being delivered. The failure of the stream
+				// will not be observed anymore, so the calls that are still pending are failed here.
+				c.cancelPendingMsgs()
+			}
 			return
 		default:
 		}
